@@ -94,6 +94,27 @@ fn the_genesis() -> Block {
 		.clone()
 }
 
+/// Records the adapter notifications (block_accepted + status) of the node under test.
+pub struct RecAdapter {
+	pub log: Mutex<Vec<(Hash, String, Hash)>>,
+}
+
+impl grin_chain::types::ChainAdapter for RecAdapter {
+	fn block_accepted(&self, b: &Block, status: grin_chain::types::BlockStatus, _opts: Options) {
+		use grin_chain::types::BlockStatus::*;
+		let (st, fp) = match status {
+			Next { prev } => ("next", prev.last_block_h),
+			Fork { fork_point, .. } => ("fork", fork_point.last_block_h),
+			Reorg { fork_point, .. } => ("reorg", fork_point.last_block_h),
+		};
+		self.log.lock().unwrap().push((b.hash(), st.to_string(), fp));
+	}
+}
+
+pub fn init_chain_rec(dir: &str, adapter: Arc<RecAdapter>) -> Chain {
+	Chain::init(dir.to_string(), adapter, the_genesis(), pow::verify_size, false, None).expect("chain init")
+}
+
 pub fn init_chain(dir: &str) -> Chain {
 	Chain::init(
 		dir.to_string(),
@@ -514,7 +535,8 @@ fn replay_one(beh: &Value, dir: &str, deep_every: bool, twin: bool) -> Value {
 	std::fs::create_dir_all(dir).unwrap();
 	let w = build_world(beh, dir);
 	let node_dir = format!("{}/node", dir);
-	let mut chain = Some(init_chain(&node_dir));
+	let adapter = Arc::new(RecAdapter { log: Mutex::new(vec![]) });
+	let mut chain = Some(init_chain_rec(&node_dir, adapter.clone()));
 	let trunk = beh["trunk"].as_u64().unwrap_or(0);
 	if trunk < TEMPLATE_FROM {
 		for k in 1..=trunk {
@@ -546,9 +568,27 @@ fn replay_one(beh: &Value, dir: &str, deep_every: bool, twin: bool) -> Value {
 			}
 			"ProcessBlock" => {
 				let c = chain.as_ref().unwrap();
+				adapter.log.lock().unwrap().clear();
 				let r = std::panic::catch_unwind(std::panic::AssertUnwindSafe(|| {
 					c.process_block(w.blocks[&b].clone(), Options::SKIP_POW)
 				}));
+				// the notifications of this call: (block, status, fork point), in order
+				if let Some(exp) = s["notes"].as_array() {
+					let obs: Vec<Value> = adapter
+						.log
+						.lock()
+						.unwrap()
+						.iter()
+						.map(|(h, st, fp)| json!({"b": w.id_of.get(h), "st": st, "fp": if st == "next" { Value::Null } else { json!(w.id_of.get(fp)) }}))
+						.collect();
+					let expv: Vec<Value> = exp
+						.iter()
+						.map(|e| json!({"b": e["b"], "st": e["st"], "fp": if e["st"] == "next" { Value::Null } else { e["fp"].clone() }}))
+						.collect();
+					if obs != expv {
+						mism.push(json!({"step": i, "what": "notifications", "expected": expv, "observed": obs}));
+					}
+				}
 				match r {
 					Ok(r) => class_of(&r),
 					Err(_) => "panic".to_string(),
@@ -634,7 +674,8 @@ fn replay_one(beh: &Value, dir: &str, deep_every: bool, twin: bool) -> Value {
 			}
 			"Reopen" => {
 				chain = None;
-				match std::panic::catch_unwind(|| init_chain(&node_dir)) {
+				let ad = adapter.clone();
+				match std::panic::catch_unwind(std::panic::AssertUnwindSafe(|| init_chain_rec(&node_dir, ad))) {
 					Ok(c) => {
 						chain = Some(c);
 						"ok".to_string()
